@@ -12,6 +12,7 @@ import NavisModel.Drv.C03
 import NavisModel.Drv.C07
 import NavisModel.Drv.C14
 import NavisModel.Drv.C11
+import NavisModel.Drv.C13
 import NavisModel.Drv.C17
 import NavisModel.Drv.C18
 /-! `navisdrv`: one request per line on stdin (`<prop>.<cmd> <payload>`), one answer per line on stdout. -/
@@ -33,6 +34,7 @@ def handle (head rest : String) : Option String :=
   | ["c07", cmd] => Drv.C07.run cmd rest
   | ["c14", cmd] => Drv.C14.run cmd rest
   | ["c11", cmd] => Drv.C11.run cmd rest
+  | ["c13", cmd] => Drv.C13.run cmd rest
   | ["c17", cmd] => Drv.C17.run cmd rest
   | ["c18", cmd] => Drv.C18.run cmd rest
   | ["ping"] => some "pong"
